@@ -500,7 +500,12 @@ impl C19 {
             Some(1) => (xot.new_comment("c"), None, "detached-comment".into()),
             Some(2) => {
                 let n = xot.add_name("pi");
-                (xot.new_processing_instruction(n, Some("d")), None, "detached-pi".into())
+                if rng.bool() {
+                    (xot.new_processing_instruction(n, Some("d")), None, "detached-pi".into())
+                } else {
+                    // the serialised node is itself a PI whose data holds '>': to be refused like anywhere else
+                    (xot.new_processing_instruction(n, Some("a > b")), None, "detached-pi-with-gt".into())
+                }
             }
             Some(3) => {
                 let n = xot.add_name("k");
@@ -572,8 +577,23 @@ impl C19 {
         let with_norm = entry >= 4;
         let plain_params = !indent && cdata_q.is_empty();
         let from_bytes = |r: Result<(), xot::Error>, v: Vec<u8>| r.map(|_| String::from_utf8_lossy(&v).into_owned());
+        // one Html5 value may serve several calls: a call that FAILED half-way must leave nothing behind in it
+        let bad_pi = {
+            let n = xot.add_name("zzbad");
+            xot.new_processing_instruction(n, Some("x > y"))
+        };
+        let reuse_after_failure = rng.chance(1, 4);
+        if reuse_after_failure {
+            ctx.count("html5_value_reused_after_a_failed_call");
+        }
         let r = guard(|| {
             let h = xot.html5();
+            if reuse_after_failure {
+                let _ = h.to_string(bad_pi);
+                let _ = h.serialize_string(params.clone(), bad_pi);
+                let mut sink = Vec::new();
+                let _ = h.write(bad_pi, &mut sink);
+            }
             match entry {
                 0 if plain_params => h.to_string(target),
                 1 if plain_params => {
@@ -611,6 +631,14 @@ impl C19 {
             Ok(Ok(s)) => s,
         };
         ctx.count("outputs_ok");
+        if kind == "detached-pi-with-gt" {
+            ctx.violation(
+                "a processing instruction containing '>' was emitted instead of refused",
+                "C19/pi-with-gt-emitted/as-the-serialised-node".to_string(),
+                base(String::new(), &out),
+            );
+            return;
+        }
         if !out.starts_with("<!DOCTYPE html>") {
             ctx.violation("output does not start with the HTML doctype", format!("C19/no-doctype/{}", kind), base(String::new(), &out));
             return;
